@@ -39,6 +39,19 @@ fn real_main(args: Vec<String>) -> i32 {
             let Some(prop) = args.get(2).and_then(|id| bv::props::find(id)) else { usage() };
             driver::shrink_file(prop.as_ref(), &args[3])
         }
+        "case" => {
+            // case <ID> <stream> <index> [seed]: print the rendered input of one generated case (does not run it when BV_NORUN is set)
+            let Some(prop) = args.get(2).and_then(|id| bv::props::find(id)) else { usage() };
+            let stream = args[3].clone();
+            let index: u64 = args[4].parse().unwrap_or(0);
+            let seed: u64 = args.get(5).and_then(|s| s.parse().ok()).unwrap_or(1);
+            let st = prop.streams(Tier::Quick).into_iter().find(|s| s.name == stream).expect("stream");
+            let tape = driver::tape_for(seed, prop.id(), &stream, index, st.tape_len);
+            let mut env = driver::Env::new(Tier::Quick, seed);
+            let out = prop.run_case(&mut env, &stream, index, &tape);
+            println!("{}\n// verdict: {:?}", out.rendered, out.verdict);
+            0
+        }
         "gen" => {
             let profile = args.get(2).map(String::as_str).unwrap_or("core");
             let seed: u64 = args.get(3).and_then(|s| s.parse().ok()).unwrap_or(1);
